@@ -13,6 +13,7 @@ import math
 import numpy as np
 
 from vf.core.ctx import Result
+from vf.ref import c11_ode as ode
 from vf.ref import c11_towers as tw
 
 ID = "C14"
@@ -20,8 +21,12 @@ LEVEL = "exploration"
 TECHNIQUE = "exhaustive kernel lattice (QED kernels at a_em=0 vs QCD kernels on identical steps) + moment-probe solves over alpha_em x iterations"
 LEVEL_TEXT = (
     "kernel level: every (tower, QED order, nf, step shape, coupling pair, iteration count) of a fixed product is evaluated with a_em = 0 and "
-    "compared entry by entry with the pure-QCD kernels on the same steps; end to end: the real runner is driven through the Mellin-moment probe "
-    "for alpha_em in {1e-4,1e-6,1e-8} x iterations {10,40,160} and compared with the pure-QCD run"
+    "compared entry by entry with the pure-QCD kernels on the same steps (eko's QCD kernels and, for the (S,g) block, the check's own product of "
+    "one-step Taylor matrix exponentials with the supplied step middles, which in the 'param' shape are not the means of the borders); the QED "
+    "expanded scale-variation factors and the a_em^0 column of the exponentiated varied grids are compared with the QCD prescriptions at a_em = 0; "
+    "end to end: the real runner is driven through the Mellin-moment probe "
+    "for alpha_em in {1e-4,1e-6,1e-8} x iterations {10,40,160} and compared with the pure-QCD run, on forward paths, scale-varied paths and a "
+    "backward VFNS path (exact inverse matching; thorough also the expanded inverse)"
 )
 LEVEL_NOTE = (
     "decides the property on the lattice only; the end-to-end part sees exact Mellin moments (no x-space interpolation, see DESIGN 2.2); "
@@ -36,6 +41,7 @@ NS_QED = {(0, 1): 1.5 - 0.5j, (1, 1): 3.0 + 0.25j, (0, 2): 4.0 + 1.0j}
 # singlet towers: two generic ones and a momentum-conserving one (eigenvalue 0 degenerate with the photon)
 S_TOWERS = {"real": ("G", "real"), "cplx": ("G", "cplx"), "mom": ("M", "real")}
 KTOL = 2.5e-13  # kernel-level equality (relative to max(1,|K|)); measured 2.2e-14
+OWN_TOL = 1e-12  # (S,g) block vs the check's own Taylor-expm step product (two different matrix exponentials over <= 160 steps); measured 4.4e-14
 ITERS_EXACT = [1, 4, 10, 40, 160]
 ITERS_CONV = [10, 40, 160]
 RATIO_MIN = 12.0
@@ -54,7 +60,11 @@ E2E_VARIANTS = {
     "running": dict(init=[1.65, 4], mugrid=[[100.0, 5]], em_running=True),
     "ffns4-sv": dict(init=[3.0, 4], mugrid=[[50.0, 4]], ratios=[1.0, "inf", "inf"], ref=[91.2, 4], sv="expanded", xif=2.0),
     "ffns4-svexp": dict(init=[3.0, 4], mugrid=[[50.0, 4]], ratios=[1.0, "inf", "inf"], ref=[91.2, 4], sv="exponentiated", xif=0.5),
+    # backward VFNS paths: inverse matching (build_ome exact / expanded inverse) embedded in the QED unified-evolution basis
+    "vfns54-back": dict(init=[100.0, 5], mugrid=[[1.65, 4]], inversion="exact"),
+    "vfns54-back-expanded": dict(init=[100.0, 5], mugrid=[[1.65, 4]], inversion="expanded"),
 }
+SV_LS = [-1.3862943611198906, 0.5, 1.3862943611198906]  # ln 1/4, 0.5, ln 4
 MOMENTS_N3LO = [2.3, 3.5, 6.0]  # the as3 matching elements are 0/0 at N = 2 exactly
 
 
@@ -65,14 +75,31 @@ def _steps(shape, a0, a1, n):
         al = 1.0 / (1.0 / a0 + np.arange(n + 1) / n * (1.0 / a1 - 1.0 / a0))
         al[0], al[-1] = a0, a1
     ah = (al[1:] + al[:-1]) / 2.0
+    if shape == "param":
+        # borders as in "uneven", but the supplied a_s of each step is a_s at the middle of the parameter (as the runner supplies
+        # a_s at the scale midpoint), NOT the arithmetic mean of the borders
+        ah = 1.0 / (1.0 / a0 + (np.arange(n) + 0.5) / n * (1.0 / a1 - 1.0 / a0))
     return al, np.stack([ah, np.zeros(n)], axis=1)
 
 
-def _midpoint_product(g, betas, al):
-    """prod_k exp( sum_i g_i ah^i / sum_i beta_i ah^(i+1) * (a_{k+1}-a_k) ) for a scalar tower."""
+def _step_product2(T, betas, al, ahs):
+    """Own QCD kernel 'for the same coupling steps': prod_k expm( sum_i T_i ah_k^i / sum_i beta_i ah_k^(i+1) (al_{k+1} - al_k) ),
+    later steps on the left, with the SUPPLIED step middles ah_k (Taylor scaling-and-squaring, no eigen-decomposition)."""
+    Q = np.eye(2, dtype=complex)
+    for k in range(len(al) - 1):
+        a = float(ahs[k])
+        num = sum(T[i] * a**i for i in range(len(betas)))
+        den = sum(betas[i] * a ** (i + 1) for i in range(len(betas)))
+        Q = ode.expm_small(num / den * (al[k + 1] - al[k])) @ Q
+    return Q
+
+
+def _midpoint_product(g, betas, al, ahs=None):
+    """prod_k exp( sum_i g_i ah^i / sum_i beta_i ah^(i+1) * (a_{k+1}-a_k) ) for a scalar tower; ah = supplied middles
+    (default: arithmetic mean of the borders)."""
     tot = 0.0
     for k in range(len(al) - 1):
-        ah = (al[k + 1] + al[k]) / 2.0
+        ah = (al[k + 1] + al[k]) / 2.0 if ahs is None else float(ahs[k])
         num = sum(g[i] * ah**i for i in range(len(betas)))
         den = sum(betas[i] * ah ** (i + 1) for i in range(len(betas)))
         tot += num / den * (al[k + 1] - al[k])
@@ -83,6 +110,61 @@ def _embed_singlet(T, nsp):
     """(S,g)-basis 2x2 -> (g, ph, S, Sdelta) 4x4 with the photon decoupled and Sdelta = ns+."""
     qq, qg, gq, gg = T[0][0], T[0][1], T[1][0], T[1][1]
     return np.array([[gg, 0, gq, 0], [0, 0, 0, 0], [qg, 0, qq, 0], [0, 0, 0, nsp]], dtype=complex)
+
+
+def _sv_at_aem0(res, eq, T, nsp, vt, vd, G4, G2, G1, order, nf, a1, base, where0):
+    """With a_em = 0 the QED scale-variation prescriptions must be the QCD ones of the same sector: expanded factors entry by
+    entry; exponentiated: the a_em^0 column of the varied QED grid (the only one a kernel at a_em = 0 reads) is the embedding of the
+    varied QCD towers."""
+    from eko.scale_variations import expanded as sv_exp
+    from eko.scale_variations import exponentiated as sv_expo
+
+    o0, o1 = order
+    qo = (o0, 0)
+    c = lambda x: np.array(x, dtype=complex)  # noqa
+    eq0 = eq
+    eq = lambda sig, where, got, want, what: eq0(sig, where, got, want, what, KTOL, "max_kernel_sv_dev_over_tol")  # noqa
+    for L in SV_LS:
+        f2 = np.asarray(sv_exp.singlet_variation(T.copy(), a1, qo, nf, L, 2))
+        fn, fv, fd = [complex(sv_exp.non_singlet_variation(c(t), a1, qo, nf, L)) for t in (nsp, vt, vd)]
+        gT = np.asarray(sv_expo.gamma_variation(T.copy(), qo, nf, L))
+        gn, gv, gd = [np.asarray(sv_expo.gamma_variation(c(t), qo, nf, L)) for t in (nsp, vt, vd)]
+        for run in (False, True):
+            where = f"{where0} L={L} em_running={run} a_s={a1} a_em=0"
+            sig = f"expanded.singlet_variation_qed/{base}/aem=0"
+            try:
+                F = np.asarray(sv_exp.singlet_variation_qed(G4.copy(), a1, 0.0, run, order, nf, L))
+                eq(sig, where, np.array([[F[2, 2], F[2, 0]], [F[0, 2], F[0, 0]]]), f2, "(S,g) block vs expanded.singlet_variation")
+                eq(sig, where, F[3, 3], fn, "Sdelta entry vs expanded.non_singlet_variation(ns+)")
+                rest = np.array([F[1, 0], F[1, 2], F[1, 3], F[0, 1], F[2, 1], F[3, 1], F[1, 1] - 1.0, F[3, 0], F[3, 2], F[0, 3], F[2, 3]])
+                eq(sig, where, rest, np.zeros(11), "photon row/column minus identity and Sdelta off-diagonal entries")
+            except Exception as e:  # noqa
+                res.fail(sig + "/raises", f"{where}: {type(e).__name__}: {e}")
+            sig = f"expanded.valence_variation_qed/{base}/aem=0"
+            try:
+                F = np.asarray(sv_exp.valence_variation_qed(G2.copy(), a1, 0.0, run, order, nf, L))
+                eq(sig, where, F, np.diag([fv, fd]), "factor vs diag(non_singlet_variation(V), non_singlet_variation(Vdelta))")
+            except Exception as e:  # noqa
+                res.fail(sig + "/raises", f"{where}: {type(e).__name__}: {e}")
+            sig = f"expanded.non_singlet_variation_qed/{base}/aem=0"
+            try:
+                F = complex(sv_exp.non_singlet_variation_qed(G1.copy(), a1, 0.0, run, order, nf, L))
+                eq(sig, where, F, fn, "factor vs expanded.non_singlet_variation")
+            except Exception as e:  # noqa
+                res.fail(sig + "/raises", f"{where}: {type(e).__name__}: {e}")
+            for sector, G, want in (
+                ("singlet", G4, [_embed_singlet(gT[i], gn[i]) for i in range(o0)]),
+                ("valence", G2, [np.diag([gv[i], gd[i]]) for i in range(o0)]),
+                ("ns", G1, [gn[i] for i in range(o0)]),
+            ):
+                sig = f"exponentiated.gamma_variation_qed/{sector}/{base}/aem=0"
+                try:
+                    work = G.copy()
+                    out = sv_expo.gamma_variation_qed(work, order, nf, 3, L, run)
+                    out = work if out is None else np.asarray(out)
+                    eq(sig, where, out[1:, 0], np.array(want), "a_em^0 column of the varied grid vs embedded exponentiated.gamma_variation")
+                except Exception as e:  # noqa
+                    res.fail(sig + "/raises", f"{where}: {type(e).__name__}: {e}")
 
 
 def eval_kernel(case, res, info):
@@ -118,10 +200,10 @@ def eval_kernel(case, res, info):
     def dev(x, y):
         return float(np.abs(np.asarray(x) - np.asarray(y)).max() / max(1.0, float(np.abs(np.asarray(y)).max())))
 
-    def eq(sig, where, got, want, what):
+    def eq(sig, where, got, want, what, tol=KTOL, key="max_kernel_dev_over_tol"):
         d = dev(got, want)
-        info["max_kernel_dev_over_tol"] = max(info.get("max_kernel_dev_over_tol", 0.0), d / KTOL)
-        if not d <= KTOL:
+        info[key] = max(info.get(key, 0.0), d / tol)
+        if not d <= tol:
             res.fail(sig, f"{where}: {what}: got {np.asarray(got).tolist()} expected {np.asarray(want).tolist()} (deviation {d:.3e})")
 
     conv = {"Sdelta": [], "V": [], "Vdelta": [], "LO-singlet": []}
@@ -135,12 +217,15 @@ def eval_kernel(case, res, info):
         sig = f"singlet_qed.eko_iterate/{base}"
         try:
             E = np.asarray(sq.dispatcher(order, EM.ITERATE_EXACT, G4.copy(), al, ah, nf, n, (10, 0)))
-            # QCD kernel on the same steps: product of one-step iterated kernels (midpoint = arithmetic mean)
-            Q = np.eye(2, dtype=complex)
-            for k in range(n):
-                Q = np.asarray(s.eko_iterate(T.copy(), al[k + 1], al[k], betas, (o0, 0), 1)) @ Q
             blk = np.array([[E[2, 2], E[2, 0]], [E[0, 2], E[0, 0]]])
-            eq(sig + "/singlet-block", where, blk, Q, "(S,g) block vs product of QCD one-step kernels")
+            if shape != "param":
+                # QCD kernel on the same steps: product of one-step iterated kernels (midpoint = arithmetic mean)
+                Q = np.eye(2, dtype=complex)
+                for k in range(n):
+                    Q = np.asarray(s.eko_iterate(T.copy(), al[k + 1], al[k], betas, (o0, 0), 1)) @ Q
+                eq(sig + "/singlet-block", where, blk, Q, "(S,g) block vs product of QCD one-step kernels")
+            # every shape: the check's own step product with the supplied middles (for "param" they are not the border means)
+            eq(sig + "/singlet-block", where, blk, _step_product2(T, betas, al, ah[:, 0]), "(S,g) block vs own step product with the supplied step middles", OWN_TOL, "max_kernel_own_step_product_over_tol")
             if shape == "geom":
                 Qn = np.asarray(s.eko_iterate(T.copy(), a1, a0, betas, (o0, 0), n))
                 eq(sig + "/singlet-block", where, blk, Qn, "(S,g) block vs singlet.eko_iterate with the same number of steps")
@@ -151,7 +236,7 @@ def eval_kernel(case, res, info):
             eq(sig + "/photon-trivial", where, ph, np.zeros(7), "photon row/column minus identity")
             sd = np.array([E[3, 0], E[3, 1], E[3, 2], E[0, 3], E[1, 3], E[2, 3]])
             eq(sig + "/Sdelta-decoupled", where, sd, np.zeros(6), "Sdelta off-diagonal entries")
-            eq(sig + "/Sdelta-follows-ns", where, E[3, 3], _midpoint_product(nsp, betas, al), "Sdelta entry vs midpoint product of the ns+ tower")
+            eq(sig + "/Sdelta-follows-ns", where, E[3, 3], _midpoint_product(nsp, betas, al, ah[:, 0]), "Sdelta entry vs midpoint product of the ns+ tower")
             if n in ITERS_CONV:
                 conv["Sdelta"].append(abs(E[3, 3] - exact_ns) / abs(exact_ns))
                 if lo_ref is not None:
@@ -162,7 +247,7 @@ def eval_kernel(case, res, info):
         sig = f"valence_qed.eko_iterate/{base}"
         try:
             E = np.asarray(vq.dispatcher(order, EM.ITERATE_EXACT, G2.copy(), al, ah, nf, n, (10, 0)))
-            want = np.diag([_midpoint_product(vt, betas, al), _midpoint_product(vd, betas, al)])
+            want = np.diag([_midpoint_product(vt, betas, al, ah[:, 0]), _midpoint_product(vd, betas, al, ah[:, 0])])
             eq(sig + "/diagonal", where, E, want, "valence kernel vs midpoint products of the V / Vdelta towers")
             if n in ITERS_CONV:
                 conv["V"].append(abs(E[0, 0] - exact_v) / abs(exact_v))
@@ -180,7 +265,10 @@ def eval_kernel(case, res, info):
             eq(sig + "/endpoints", where, k, exact_ns, "QED ns kernel vs QCD exact ns kernel between the end points")
         except Exception as e:  # noqa
             res.fail(sig + "/raises", f"{where}: {type(e).__name__}: {e}")
-    # ---------------- discretisation error towards the exact QCD kernels
+    # ---------------- scale-variation factors / varied anomalous dimensions at a_em = 0 (independent of the steps: once per
+    # (tower, order, nf, a1), i.e. in the geometric-shape cases)
+    if shape == "geom":
+        _sv_at_aem0(res, eq, T, nsp, vt, vd, G4, G2, G1, order, nf, a1, base, where0)
     for name, errs in conv.items():
         if len(errs) != len(ITERS_CONV):
             continue
@@ -294,6 +382,8 @@ E2E_QUICK = [
     ([1, 2], "vfns56"),
     ([2, 1], "ffns4-sv"),
     ([2, 2], "ffns4-svexp"),
+    ([2, 1], "vfns54-back"),
+    ([4, 1], "vfns45"),  # N3LO through the quick tier as well
 ]
 
 
@@ -310,7 +400,7 @@ def cases(tier):
     for t in S_TOWERS:
         for order in QED_ORDERS:
             for nf in (3, 4, 5, 6) if th else (4, 6):
-                for shape in ("geom", "uneven"):
+                for shape in ("geom", "uneven", "param"):
                     for pair in PAIRS if th else PAIRS[:2]:
                         out.append({"kind": "kernel", "tower": t, "order": order, "nf": nf, "shape": shape, "pair": pair})
     return out
@@ -324,16 +414,25 @@ def run(ctx):
     ctx.extra.update(e2e_solves=ne * (len(E2E_ITERS) * (1 + len(AEMS)) if ctx.thorough() else len(E2E_ITERS) * 2 + len(AEMS) - 1))
     ctx.rule = (
         f"kernel level: complete product of 3 singlet towers (2 generic, 1 momentum-conserving whose zero eigenvalue is degenerate with the photon) "
-        f"x 8 QED orders (1-4,1-2) x nf x 2 step shapes (geometric, uneven) x coupling pairs x iterations {ITERS_EXACT}, a_em = 0 on every step, "
-        f"dense non-zero QED entries in the grids ({len(cs) - ne} cases x 3 kernels); end to end: {ne} (order, path variant) cases, each "
+        f"x 8 QED orders (1-4,1-2) x nf x 3 step shapes (geometric; uneven = uniform in 1/a_s with the arithmetic mean as middle; param = same borders "
+        f"with a_s at the middle of the parameter as middle) x coupling pairs x iterations {ITERS_EXACT}, a_em = 0 on every step, "
+        f"dense non-zero QED entries in the grids ({len(cs) - ne} cases x 3 kernels); in the geometric cases also the scale-variation prescriptions at "
+        f"a_em = 0: L in {{ln 1/4, 0.5, ln 4}} x em_running on/off x (3 expanded QED factors, 3 exponentiated varied grids); "
+        f"end to end: {ne} (order, path variant) cases over variants {sorted(set(c['variant'] for c in cs if c['kind'] == 'e2e'))}, each "
         f"iterations {E2E_ITERS} x (1 QCD + QED at alpha_em {AEMS}; quick: the alpha_em scan only at {E2E_ITERS[1]} iterations, 1e-8 elsewhere) "
         f"moment-probe solves at N = {MOMENTS}; non-trivial = all"
     )
     ctx.assumptions += [
         "embedding by the statement: (g,ph,S,Sdelta) with only g and S mixing, photon row/column zero, Sdelta = ns+; valence = diag(V, Vdelta)",
-        "QCD kernel 'for the same coupling steps' = product of singlet.eko_iterate one-step kernels (the step middle is the arithmetic mean of its borders); "
+        "QCD kernel 'for the same coupling steps' = product of singlet.eko_iterate one-step kernels (the step middle is the arithmetic mean of its borders; "
+        "shapes geometric / uneven) and, in every shape, the check's own prod_k expm(gamma(ah_k)/beta(ah_k) (al_k+1 - al_k)) with the SUPPLIED middles ah_k "
+        f"(to {OWN_TOL}: two different matrix exponentials over up to 160 steps; measured 4.4e-14); Sdelta / V / Vdelta: scalar midpoint products with the supplied middles; "
         "the exact QCD non-singlet kernels compose exactly, so the QED ns kernel is compared both stepwise and between the end points",
         f"kernel equality to {KTOL} relative to max(1,|K|); distance to the exact (not iterated) QCD kernels must fall by >= {RATIO_MIN} per x4 steps",
         f"end to end: [QED(1e-6)-QED(1e-8)] <= [QED(1e-4)-QED(1e-8)]/30, distance at alpha_em=1e-8 falls by >= {E2E_RATIO_MIN} per x4 iterations and is <= {E2E_CLOSE} at 160",
         "pure-QCD reference run uses iterate-exact with the same number of iterations",
+        "scale variation at a_em = 0: the expanded QED factors equal the QCD factors of the same sector entry by entry (photon row/column = identity, Sdelta = ns+ "
+        "factor); of the exponentiated varied QED grids only the a_em^0 column is constrained (the other entries multiply powers of a_em = 0); eko's QCD "
+        "prescriptions are the reference by the statement itself",
+        "backward end-to-end variants compare QED and QCD runs with the same inversion method",
     ]
